@@ -58,6 +58,20 @@ func c06Inputs() []c06Input {
 	for _, a := range [][]string{{"print"}, {"balance", "--color=false", "-v", "CHF"}, {"check", "--write"}, {"transcode", "-v", "CHF"}} {
 		in = append(in, c06Input{Name: "multifile-" + strings.Join(a, "_"), Files: multi, Args: append(append([]string(nil), a...), "root.knut")})
 	}
+	// two prices for one pair on one day in different files; transactions that differ only
+	// in their @performance annotation; equal weights over several dates
+	samePrice := map[string]string{
+		"root.knut": "include \"a.knut\"\ninclude \"b.knut\"\n2020-01-01 open Assets:A\n2020-01-01 open Equity:Opening\n2020-01-02 \"t\"\nEquity:Opening Assets:A 10 USD\n\n",
+		"a.knut":    "2020-01-02 price USD 0.9 CHF\n", "b.knut": "2020-01-02 price USD 0.95 CHF\n",
+	}
+	in = append(in, c06Input{Name: "same-day-prices-balance", Files: samePrice, Args: []string{"balance", "--color=false", "-v", "CHF", "root.knut"}})
+	perfTwins := map[string]string{
+		"root.knut": "include \"a.knut\"\ninclude \"b.knut\"\n2020-01-01 open Assets:A\n2020-01-01 open Income:Div\n",
+		"a.knut":    "@performance(USD)\n2020-01-02 \"div\"\nIncome:Div Assets:A 1 CHF\n\n", "b.knut": "@performance(EUR)\n2020-01-02 \"div\"\nIncome:Div Assets:A 1 CHF\n\n",
+	}
+	in = append(in, c06Input{Name: "performance-twins-print", Files: perfTwins, Args: []string{"print", "root.knut"}})
+	in = append(in, c06Input{Name: "ties-weights-three-dates", Files: map[string]string{"j.knut": ties + jr.RenderAll([]jr.Dir{jr.P("2020-02-01", "USD", "1", "CHF"), jr.P("2020-02-02", "USD", "1", "CHF")})},
+		Args: []string{"portfolio", "weights", "-v", "CHF", "--color=false", "--days", "--from", "2020-01-31", "j.knut"}})
 	// infer with two equally likely candidates
 	training := "2020-01-01 open Assets:A\n2020-01-02 \"shop\"\nAssets:A Expenses:Food 10 CHF\n\n2020-01-03 \"shop\"\nAssets:A Expenses:Rent 10 CHF\n\n"
 	target := "2020-02-01 \"shop\"\nAssets:A Expenses:TBD 10 CHF\n\n2020-02-02 \"other\"\nExpenses:TBD Assets:A 5 CHF\n\n"
